@@ -35,3 +35,7 @@ chk('C04','exploration',
  'Differential against the kernel and path/filepath in a chroot on tmpfs: link graphs over three link names, a directory and a file with 17 target shapes per link (relative, ../, absolute, self, 2- and 3-cycles, chains, dangling, through a directory or another link), all query paths of <= 3 components, six queries on every path and 17 mutating calls on freshly rebuilt graphs with full-tree comparison; chains of 1..256 links for the loop budget. Quick: a seed-dependent 1/7 sample of the 17^3 graphs; thorough: all of them.',
  'MemFS only; lexically clean targets and query paths (unclean spellings are defined by Clean(), C01)',
  'differential lockstep against the kernel over bounded-exhaustive link graphs','DESIGN.md §5 C04')
+chk('C03','exploration',
+ 'Differential against the Linux kernel under a switched fsuid/fsgid (locked OS thread, no supplementary groups) in a chroot on tmpfs: each of 38 path-taking calls is issued by a MemFS view with SetUser(u) and by the kernel-side thread with u\'s ids on an identical configuration of owners, groups and 9 permission bits over /w/d1/d2/x and /w/e1/y; allow/refuse, errno, returned values and the whole tree afterwards (owner, group, mode of created objects, umask effect) are compared. Exhaustive over the 512 modes of each single node (quick: 1/8 by seed) x 6 ownerships x 4 acting users, plus fully random configurations.',
+ 'only the 9 permission bits; fs.protected_hardlinks=1 cases excluded and counted; the partial effect of a failed RemoveAll is not compared',
+ 'kernel differential under per-thread setfsuid/setfsgid','DESIGN.md §5 C03')
